@@ -24,9 +24,9 @@ const verifC09Sub = "ed25519.pointR1.FromBytes"
 func verifC09Used(t vlib.TB, b []byte) {
 	sub := verifC09Sub
 	type obs struct {
-		ok       bool
-		pan      interface{}
-		enc, x, y []byte
+		ok             bool
+		pan            interface{}
+		enc, x, y, dbl []byte
 	}
 	look := func(P *pointR1) (o obs) {
 		o.pan, _ = vlib.Catch(func() {
@@ -35,6 +35,11 @@ func verifC09Used(t vlib.TB, b []byte) {
 				o.enc = make([]byte, 32)
 				_ = P.ToBytes(o.enc)
 				o.x, o.y = append([]byte{}, P.x[:]...), append([]byte{}, P.y[:]...)
+				// behaviour under arithmetic: 2·P
+				D := *P
+				D.double()
+				o.dbl = make([]byte, 32)
+				_ = D.ToBytes(o.dbl)
 			}
 		})
 		return o
@@ -73,7 +78,7 @@ func verifC09Used(t vlib.TB, b []byte) {
 		vlib.Report(t, "C09/receiver/ed25519.FromBytes/panics-with-used-receiver", detail)
 	case used.ok != fresh.ok:
 		vlib.Report(t, "C09/receiver/ed25519.FromBytes/verdict-differs", detail)
-	case used.ok && !(bytes.Equal(used.enc, fresh.enc) && bytes.Equal(used.x, fresh.x) && bytes.Equal(used.y, fresh.y)):
+	case used.ok && !(bytes.Equal(used.enc, fresh.enc) && bytes.Equal(used.x, fresh.x) && bytes.Equal(used.y, fresh.y) && bytes.Equal(used.dbl, fresh.dbl)):
 		vlib.Report(t, "C09/receiver/ed25519.FromBytes/value-differs", detail)
 	case used.ok:
 		vlib.Class(sub, "used-receiver accepted: compared with fresh decode")
